@@ -29,7 +29,8 @@ class SqlSeam:
         self.tick = 0
         self.log = []            # (tick, gseq, kind, sql-prefix)
         self.fault_at = None     # tick number (1-based) at which to inject
-        self.fault_kind = None   # "error:<msg>" | "crash"
+        self.fault_kind = None   # "error:<msg>" | "crash" | "call" (run self.hook: another process's turn)
+        self.hook = None
         self.crash_dir = None    # where the crash snapshot goes
         self.db_path = None
         self.fired = None
@@ -62,6 +63,14 @@ class SqlSeam:
             if self.fault_kind == "crash":
                 self.snapshot(path)
                 raise SimCrash(f"crash at tick {self.tick} ({kind})")
+            if self.fault_kind == "call":
+                # another process gets its turn at this statement boundary
+                self.enabled = False
+                try:
+                    self.hook()
+                finally:
+                    self.enabled = True
+                return
             msg = self.fault_kind.split(":", 1)[1]
             raise sqlite3.OperationalError(msg)
 
